@@ -24,7 +24,8 @@ EXPLANATION = (
     'executed (not evaluated) so that the REPL echo of its value goes to the captured stdout. R6 REPL display: when a statement both prints and returns a value the standard '
     'module shows the concatenation; some comparison in check_got_vs_want must use stdout followed by the repr of the value (reported today as known finding F6). '
     'R7 expected tracebacks: the clauses of C03.R2 (a matching traceback want is accepted). '
-    'That every doctest the standard module passes also passes here is not decided.')
+    'That every doctest the standard module passes also passes here is not decided.'
+    ' R3 the polarity is evaluated concretely for the three sign classes (+NAME, -NAME, NAME) along the paths to the Directive construction.')
 DECIDES = ['REGEX-FACT accepted directive prefixes', 'TABLE-AGREE option names and defaults', 'polarity parsing', 'bare-continuation transition', 'old-style grouping and single mode',
            'REPL display concatenation (F6)', 'expected traceback acceptance']
 NOT_DECIDED = ['behavioural equivalence with the stdlib doctest on all programs', 'output comparison details (decided clause-wise under C05/C06)']
